@@ -21,14 +21,27 @@ CATALOGS = {
     'default-is-int2': dict(integrations=['int1', 'int2'], default_namespace='int2'),
     'with-predictors': dict(integrations=['int1', 'int2'], default_namespace='mindsdb',
                             extra={'predictor_metadata': [{'name': 'pred', 'integration_name': 'mindsdb'}]}),
+    # the same integration under other names (a name must not matter: names containing the words the planner treats
+    # specially -- files, views --, mixed case, a name that is a keyword-like word)
+    'named-crm_views': dict(integrations=['crm_views', 'int2'], default_namespace='mindsdb', rename={'crm_views': 'int1'}),
+    'named-s3files': dict(integrations=[{'name': 's3files', 'type': 'data'}, {'name': 'int2', 'type': 'data'}],
+                          default_namespace='mindsdb', rename={'s3files': 'int1'}),
+    'named-MixedCase': dict(integrations=['My_Db', 'int2'], default_namespace='mindsdb', rename={'my_db': 'int1'}),
 }
+QUICK_CATALOGS = ['names', 'dicts', 'with-predictors', 'named-crm_views', 'named-s3files', 'named-MixedCase']
 
 
 def _plan(args):
     sql, cat = args
     c = CATALOGS[cat]
-    return planexec.plan_case(sql, integrations=c['integrations'], default_namespace=c['default_namespace'],
-                              extra=c.get('extra'))
+    if c.get('rename'):
+        import re
+        new = next(iter(c['integrations'][0].values())) if isinstance(c['integrations'][0], dict) else c['integrations'][0]
+        sql = re.sub(r'\bint1\b', new, sql)
+        sql = re.sub(r'\bINT1\b', new.upper(), sql)
+    r = planexec.plan_case(sql, integrations=c['integrations'], default_namespace=c['default_namespace'],
+                           extra=c.get('extra'), rename_back=c.get('rename'))
+    return r
 
 
 def run(ctx):
@@ -41,7 +54,7 @@ def run(ctx):
     work = []
     for c in recs:
         sql = qspace.render(c)
-        for cat in (CATALOGS if thorough else ['names', 'dicts', 'with-predictors']):
+        for cat in (CATALOGS if thorough else QUICK_CATALOGS):
             work.append((sql, cat, c))
     planned = pmap(_plan, [(s, cat) for s, cat, _ in work], chunksize=16)
     status = {}
